@@ -108,6 +108,7 @@ type frame struct {
 	panicking        bool
 	panic            interface{}
 	phitemps         []value // temporaries for parallel phi assignment
+	skipPhis         bool    // phis of fr.block were already assigned by if-conversion
 }
 
 func (fr *frame) get(key ssa.Value) value {
@@ -261,7 +262,13 @@ func visitInstr(fr *frame, instr ssa.Instruction) continuation {
 
 	case *ssa.If:
 		succ := 1
-		if asBool(fr.get(instr.Cond)) {
+		cv := fr.get(instr.Cond)
+		if cs, ok := cv.(*Sym); ok && !NoIfConversion {
+			if _, known := X.known(cs); !known && tryIfConvert(fr, instr, cs) {
+				return kJump
+			}
+		}
+		if asBool(cv) {
 			succ = 0
 		}
 		fr.prevBlock, fr.block = fr.block, fr.block.Succs[succ]
@@ -611,6 +618,10 @@ func executePhis(fr *frame) []ssa.Instruction {
 	// Inv: 0 <= firstNonPhi; every block contains a non-phi.
 
 	nonPhis := fr.block.Instrs[firstNonPhi:]
+	if fr.skipPhis {
+		fr.skipPhis = false
+		return nonPhis
+	}
 	if firstNonPhi > 0 {
 		phis := fr.block.Instrs[:firstNonPhi]
 		// Execute parallel assignment of phis.
